@@ -222,6 +222,7 @@ fn speedtest_part(rep: &Arc<Reporter>, args: &Args, ctx: &Arc<Ctx>) {
                 let w = json!({"kind":"speedtest-download","protocol":format!("{:?}", proto),"via":format!("{:?}", via),"path":full,"read_pattern":format!("{:?}", slow),"status":o.status,"body_len":o.body_len,"error":o.error});
                 match want {
                     Some(n) => {
+                        if id % 7 == 0 { rep.sample(w.clone()); }
                         if o.status == Some(200) && o.body_len == n * MIB && !o.body_nonzero {
                             rep.tally(&format!("download {:?} {:?}: exact body length", proto, via), 1);
                         } else if *either && o.status == Some(400) {
